@@ -17,7 +17,7 @@ from trie.branches import (
 from trie.exceptions import InvalidKeyError
 
 from ..bgen import BHistory, make_pool, make_values, probe_keys
-from ..core import HarnessError, Violation, hx, unhx
+from ..core import HarnessError, Violation, deep, hx, unhx
 from ..models.binref import RefBin
 from .c12 import World as C12World
 
@@ -332,7 +332,7 @@ def generate(rng):
     probes = probe_keys(rng, pool)
     g = BHistory(rng, pool, values, probes)
     g.w["set"] += 3
-    cmds = [g.mutation() for _ in range(rng.choice([6, 10, 16, 25, 40]))]
+    cmds = [g.mutation() for _ in range(rng.choice(deep([6, 10, 16, 25, 40], [10, 20, 40, 70, 100])))]
     for _ in range(rng.choice([10, 20, 40])):
         pos = rng.randrange(len(cmds) // 3, len(cmds) + 1)
         present = sorted(g.present)
